@@ -226,6 +226,9 @@ def run(ctx):
             out.append(f"{norm(test.left)} in {norm(test.comparators[0])}")
         elif isinstance(test, ast.Compare) and len(test.ops) == 1 and isinstance(test.ops[0], ast.NotEq):
             out.append(f"{norm(test.left)} == {norm(test.comparators[0])}")
+        elif isinstance(test, ast.Compare) and len(test.ops) == 1 and isinstance(test.ops[0], ast.Is) \
+                and isinstance(test.comparators[0], ast.Constant) and test.comparators[0].value is None:
+            out.append(_strip_bool(test.left))  # `m is None` for a match object == `not m`
         return out
 
     def _strip_bool(e):
@@ -234,7 +237,7 @@ def run(ctx):
         return norm(e)
 
     def _skip_atoms(test):
-        out = []
+        out = list(_atoms(test))  # De Morgan form: a conjunction of negated atoms
         if isinstance(test, ast.UnaryOp) and isinstance(test.op, ast.Not):
             inner = test.operand
             vals = inner.values if isinstance(inner, ast.BoolOp) and isinstance(inner.op, ast.Or) else [inner]
